@@ -257,6 +257,23 @@ Example C09_bulk_nonvacuous :
   = [None; Some 0%nat; Some 1%nat; Some 2%nat].
 Proof. vm_compute. reflexivity. Qed.
 
+(* ---- sequences of bulks on ONE executor / resource manager: nothing is
+        carried from one task to a later one ---- *)
+Theorem C09_bulk_sequence_is_map : forall cs bulks sts,
+  work_seq cs sts bulks = map (map (fun t => snd (handle_st cs sts t))) bulks.
+Proof. exact work_seq_map. Qed.
+Print Assumptions C09_bulk_sequence_is_map.
+
+(* find_launcher is a function of the task and the launch order, not of
+   history: whatever bulks were handled before, whatever shares its bulk and
+   whatever follows, launcher and command of task t are those of t alone on a
+   fresh resource manager *)
+Theorem C09_find_launcher_history_free : forall cs before a t b after,
+  nth_error (concat (work_seq cs (fresh cs) (before ++ (a ++ t :: b) :: after)))
+            (length (concat before ++ a)) = Some (handle cs t).
+Proof. exact find_launcher_history_free. Qed.
+Print Assumptions C09_find_launcher_history_free.
+
 (* ---- error path: the host / rank / node / ERF file cannot be written into
         the task sandbox (t_wfail).  The enactment theorems above hold for
         every task, with or without the fault ("emitted => enacts"); in
